@@ -1605,6 +1605,7 @@ fn insert_child(
     position: ChildPosition,
 ) -> RenderNode {
     use RenderNodeInfo::*;
+    verif_tick!(ProbeInsertChild);
     html_trace!("insert_child({:?}, {:?}, {:?})", new_child, orig, position);
 
     match orig.info {
@@ -1710,6 +1711,10 @@ fn process_dom_node<T: Write>(
                     context
                         .style_data
                         .computed_style(parent_style, _handle, use_doc_css);
+                #[cfg(all(feature = "css", html2text_verif))]
+                if let Some(css::Display::None) = computed.display.val() {
+                    verif_tick!(ProbeDisplayNone);
+                }
                 #[cfg(feature = "css")]
                 match computed.display.val() {
                     Some(css::Display::None) => return Ok(Nothing),
